@@ -14,7 +14,7 @@ def safe(s):
 
 
 def make_replay(pid, v, seed):
-    d = os.path.join(VERIF, 'replays')
+    d = os.environ.get('VERIF_REPLAYS', os.path.join(VERIF, 'replays'))
     os.makedirs(d, exist_ok=True)
     path = os.path.join(d, f'{pid}-{safe(v["label"])}.json')
     rec = {'property': pid, 'obligation': v['obligation'], 'label': v['label'], 'function': v['function'],
